@@ -1,3 +1,4 @@
+import Sucds.Model.RustSem
 import Sucds.Driver.Core
 import Sucds.Model.IndexIter
 import Std.Data.HashMap
@@ -880,6 +881,59 @@ def utils (c : Cfg) (a : List String) : Option Out :=
     | _, _ => none
   | _ => none
 
+/-- `sem <op> a [b]`: the semantics library of the function-body translator (`RustSem.lean`, `Prim.lean`) evaluated on the
+    operands; the implementation side is what the compiler does in this build -/
+def semOp (c : Cfg) (a : List String) : Option Out :=
+  let showR (r : R Nat) : String := match r with | .ok v => toString v | .error _ => "panic"
+  let showI (r : R Int) : String := match r with | .ok v => toString v | .error _ => "panic"
+  let mk (s : String) : Option Out := some ⟨s, .any⟩
+  match a with
+  | [op, x] => (num? x).bind fun x =>
+    let ix := RS.isizeOfUsize x
+    match op with
+    | "not" => mk (toString (wnot x))
+    | "count_ones" => mk (toString (RS.countOnes x))
+    | "trailing_zeros" => mk (toString (RS.trailingZeros x))
+    | "leading_zeros" => mk (toString (RS.leadingZeros x))
+    | "as_u8" => mk (toString (x % 256))
+    | "as_u16" => mk (toString (x % 65536))
+    | "as_u32" => mk (toString (x % 4294967296))
+    | "as_isize" => mk (toString ix)
+    | "isize_as_usize" => mk (toString (RS.usizeOfIsize ix))
+    | "ineg" => mk (showI (RS.ineg c ix))
+    | "b2u" => mk (toString (RS.b2u (x != 0)))
+    | "shl_const9" => mk (toString (RS.shlConst x 9))
+    | "shl_const8" => mk (toString (RS.shlConst x 8))
+    | _ => none
+  | [op, x, y] => match num? x, num? y with
+    | some x, some y =>
+      let ix := RS.isizeOfUsize x; let iy := RS.isizeOfUsize y
+      (match op with
+      | "add" => mk (showR (cadd c x y))
+      | "sub" => mk (showR (csub c x y))
+      | "mul" => mk (showR (cmul c x y))
+      | "shl" => mk (showR (cshl c x y))
+      | "shr" => mk (showR (cshr c x y))
+      | "div" => mk (showR (RS.cdiv x y))
+      | "rem" => mk (showR (RS.crem x y))
+      | "wrapping_add" => mk (toString (RS.wrappingAdd x y))
+      | "wrapping_sub" => mk (toString (RS.wrappingSub x y))
+      | "wrapping_mul" => mk (toString (RS.wrappingMul x y))
+      | "wrapping_shl" => mk (toString (RS.wrappingShl x (y % 4294967296)))
+      | "wrapping_shr" => mk (toString (RS.wrappingShr x (y % 4294967296)))
+      | "saturating_add" => mk (toString (RS.saturatingAdd x y))
+      | "saturating_sub" => mk (toString (RS.saturatingSub x y))
+      | "and" => mk (toString (x &&& y))
+      | "or" => mk (toString (x ||| y))
+      | "xor" => mk (toString (x ^^^ y))
+      | "iadd" => mk (showI (RS.iadd c ix iy))
+      | "isub" => mk (showI (RS.isub c ix iy))
+      | "min" => mk (toString (Nat.min x y))
+      | "max" => mk (toString (Nat.max x y))
+      | _ => none)
+    | _, _ => none
+  | _ => none
+
 /-- signed primitive of `k` bytes -/
 def sint (k : Nat) : Codec Int where
   put x := Codec.leBytes (x % (2 ^ (8 * k) : Nat)).toNat k
@@ -960,6 +1014,7 @@ def step1 (c : Cfg) (tbl : Tbl) (toks : List String) : Tbl × Out :=
     | _, _ => (tbl, ⟨"noobj", .any⟩))
   | "bw" :: a => (tbl, (broadword c a).getD (bad "bw"))
   | "ut" :: a => (tbl, (utils c a).getD (bad "ut"))
+  | "sem" :: a => (tbl, (semOp c a).getD (bad "sem"))
   | "prim" :: a => (tbl, (prim a).getD (bad "prim"))
   | ["drop", id] => (match num? id with | some i => (tbl.erase i, ⟨"ok", .any⟩) | none => (tbl, bad "id"))
   | _ => (tbl, bad "command")
